@@ -47,6 +47,14 @@ def env():
     return e
 
 
+def _limit_memory():
+    """Address-space cap per process (inherited by every cbmc): a runaway SAT instance must abort (=> exit 2),
+    not drive the machine into the OOM killer, which would take other harnesses down with it."""
+    import resource
+    cap = int(os.environ.get("VERIF_MEM_GB", "26")) << 30
+    resource.setrlimit(resource.RLIMIT_AS, (cap, cap))
+
+
 def run_kani(harnesses, log_path, json_path, jobs=8, harness_timeout=900, wall_timeout=None, solver=None):
     """One cargo-kani invocation over `harnesses` (fully qualified names). Returns
     (returncode, seconds, parsed_json_or_None, log_text)."""
@@ -67,7 +75,7 @@ def run_kani(harnesses, log_path, json_path, jobs=8, harness_timeout=900, wall_t
         lf.flush()
         try:
             p = subprocess.run(cmd, cwd=CRATE, env=env(), stdout=lf, stderr=subprocess.STDOUT,
-                               timeout=wall_timeout)
+                               timeout=wall_timeout, preexec_fn=_limit_memory)
             rc = p.returncode
         except subprocess.TimeoutExpired:
             rc = -9
